@@ -42,7 +42,7 @@ CLAIMED = {
         "columns of every aggregate row are sums over exactly the attributable units, for every group structure. The model is run on every "
         "generated election next to ModelClient.get_estimates and all unit categories, counted votes and aggregate tables are compared exactly.",
         "Trusted: Lean kernel + standard axioms; pandas idioms modelled as relational algebra (validated by the diff); key derivation for "
-        "unexpected units done by the harness as the code does. Known findings KF-1, KF-4 (known_findings.json).",
+        "unexpected units done by the harness as the code does. Known finding KF-1 (known_findings.json).",
         "DESIGN.md section 5 C01",
     ),
     "C02": (
@@ -181,7 +181,7 @@ CLAIMED = {
         "counted votes, prediction and both bounds of exactly the attributable group move by exactly the votes, nothing at a classification "
         "level, and a group is created if needed. Elections are run with and without 1-3 extra rows (known / unknown county, district, "
         "state; split-precinct ids) for 3 estimators and every aggregate list; all other numbers must be bit-identical.",
-        "Trusted: numerical core as oracle; bootstrap per-draw clause observed through numerators / denominators. Known finding KF-2.",
+        "Trusted: numerical core as oracle; bootstrap per-draw clause observed through numerators / denominators.",
         "DESIGN.md section 5 C11",
     ),
     "C10": (
